@@ -116,6 +116,8 @@ class Support:
         if isinstance(e, ast.Call):
             f = dotted(e.func) or ""
             last = f.split(".")[-1]
+            if not f and isinstance(e.func, ast.Attribute) and e.func.attr in ("reshape", "transpose", "copy", "sum", "astype", "flatten", "ravel", "squeeze"):
+                return self.ev(e.func.value)  # method call on an expression: (...).reshape(...)
             if isinstance(e.func, ast.Attribute) and isinstance(e.func.value, ast.Name) and e.func.value.id == self.sn:
                 nm = e.func.attr
                 k = self.kind(nm)
@@ -265,13 +267,20 @@ def q_companions(view, a):
     cands = []
     if m:
         cands.append(f"{a}_q{m.group(1)}")
-        cands.append(f"{a}_q")
-    else:
-        m2 = re.match(r"^J([12])_R$", a)
-        if m2:
-            cands.append(f"{a}_q{m2.group(1)}")
-        cands += [a + s for s in Q_SUFFIX]
-    return [c for c in cands if _exists(view, c)]
+    m2 = re.match(r"^J([12])_R$", a)
+    if m2:
+        cands.append(f"{a}_q{m2.group(1)}")
+    cands += [a + s for s in Q_SUFFIX]
+    out = []
+    for c in cands:
+        if _exists(view, c) and c not in out:
+            out.append(c)
+    # a body-indexed atom only has the companion of its own body
+    if m or m2:
+        own = [c for c in out if c.endswith("_q" + (m or m2).group(1))]
+        if own:
+            return own
+    return out
 
 
 def u_companions(view, a):
@@ -341,13 +350,9 @@ def D(view, S, mode):
     return frozenset(out), unknown
 
 
-def zero_atoms(view):
-    """companions that are identically zero in every definition (np.zeros(...)): monomials containing them vanish."""
-    return None
-
-
-def check(rep, rule, view, C, rel, primal, deriv, mode, extra=None, lineno=0):
-    """S(deriv) == D_mode(S(primal) [* extra])."""
+def check(rep, rule, view, C, rel, primal, deriv, mode, extra=None, lineno=0, zero=()):
+    """S(deriv) == D_mode(S(primal) [* extra]).  Monomials containing an atom in `zero` (quantities that vanish under the
+    property's premise) are compared too, but a deviation in them is a note, not a finding."""
     Sp, why = support_of(view, primal)
     Sd, why2 = support_of(view, deriv)
     if Sp is TOP or Sd is TOP:
@@ -358,12 +363,19 @@ def check(rep, rule, view, C, rel, primal, deriv, mode, extra=None, lineno=0):
     exp, unknown = D(view, Sp, mode)
     if unknown:
         rep.note(f"{rule}: {C}: no time companion known for {sorted(unknown)}; pair ({primal} -> {deriv}) decided without these factors")
-    # monomials with an identically-zero companion vanish
-    def nonzero(m):
-        from .deriv import K5
-        return True
     missing = sorted(exp - Sd)
     extra_m = sorted(Sd - exp)
+    if zero:
+        # deviations that only concern monomials vanishing under the property's premise are reported as notes
+        z = set(zero)
+        out_m = [m for m in missing if set(m) & z]
+        out_e = [m for m in extra_m if set(m) & z]
+        missing = [m for m in missing if not (set(m) & z)]
+        extra_m = [m for m in extra_m if not (set(m) & z)]
+        for m in out_m:
+            rep.note(f"{rule}: {C}: outside the property's premise ({', '.join(sorted(set(m) & z))} = 0): `{deriv}` lacks the term ({', '.join(m)}) of d/d{mode} {primal}")
+        for m in out_e:
+            rep.note(f"{rule}: {C}: outside the property's premise: `{deriv}` has the extra term ({', '.join(m)})")
     label = {"q": "d/dq", "u": "d/du", "t": "d/dt"}[mode]
     if not missing and not extra_m:
         rep.ok(rule, C, f"{label} {primal}: {len(exp)} monomials, all present and no other")
